@@ -18,9 +18,11 @@ def _install_fmt_and_escape():
         with NoTracing():
             simple = type(self) is str and all(m.group(1) in "%sd" for m in anyspec.finditer(self))
         if not simple:
-            if orig_fmt is None:
-                return NotImplemented
-            return orig_fmt(self, other)
+            # anything but %s/%d/%%: realize (as CrossHair itself does) and format natively
+            fs = _core.realize(self)
+            fo = _core.deep_realize(other)
+            with NoTracing():
+                return str.__mod__(fs, fo)
         args = other if isinstance(other, tuple) else (other,)
         out = ""
         pos = 0
